@@ -1,7 +1,9 @@
 package props
 
 import (
+	"fmt"
 	"lwverif/internal/absint"
+	"os"
 )
 
 // forParts runs body on the input-space part `dom`, partitioning further whenever the interpreter raises a
@@ -21,6 +23,9 @@ func forParts(in *absint.Interp, dom absint.Node, maxDepth int, body func(dom ab
 		err := body(pt.dom, pt.tag)
 		if err == nil {
 			continue
+		}
+		if sr, ok := err.(absint.SplitRequest); ok && os.Getenv("LW_SPLITDEBUG") != "" {
+			fmt.Fprintf(os.Stderr, "split %q: %s; cond implied by part: %v, refuted by part: %v, cond==part: %v\n", pt.tag, sr.Why, in.D.M.Implies(pt.dom, sr.Cond), in.D.M.And(pt.dom, sr.Cond) == absint.False, sr.Cond == pt.dom)
 		}
 		if sr, ok := err.(absint.SplitRequest); ok && len(pt.tag) < maxDepth {
 			work = append(work, part{in.D.M.And(pt.dom, sr.Cond), pt.tag + "+"}, part{in.D.M.And(pt.dom, in.D.M.Not(sr.Cond)), pt.tag + "-"})
